@@ -34,7 +34,10 @@ PROBE_METHODS = ['GET', 'POST', 'PUT']
 APP_KINDS = ['K0', 'K1', 'K2', 'K3']
 ENTRY_KINDS = ['R1', 'R2', 'T', 'G', 'P']
 INDEXES = (None, 0, 1, -1)
-FAIL_KINDS = ['unresolved', 'conflict', 'badpattern', 'badmw', 'embedded-2nd', 'badwsgi', 'badwsgi-sig']
+FAIL_KINDS = ['unresolved', 'conflict', 'badpattern', 'badmw', 'embedded-2nd', 'badwsgi', 'badwsgi-sig', 'posonly',
+              'unresolved-same-fn']
+# posonly / unresolved-same-fn use one function object for the whole history: every failing operation is attempted
+# twice, and the retry must fail just the same
 
 
 def deadline_passed():
@@ -174,6 +177,9 @@ class World(object):
             raise NotFound('not here', is_breaking=False)
         self.bystander = Application([('/boom', boomer), ('/nb', nb)])
         self.boomer = boomer
+        ns = {}
+        exec('def posonly_ep(request, /):\n    return None\ndef needs_zzz(zzz):\n    return None\n', ns)
+        self.posonly_ep, self.needs_zzz = ns['posonly_ep'], ns['needs_zzz']
         self.R1 = Route('/r1', self.eps['R1'])
         self.R2 = Route('/r2', self.eps['R2'], methods=['POST'])
         self.snap = self.snapshot_routes()
@@ -259,6 +265,10 @@ class World(object):
                     app.add(Route('/r1', self.eps['T'], middlewares=[W()]), 0)
                 else:
                     app.add(Route('/t', self.eps['T'], middlewares=[W()]), 0)
+            elif kind == 'posonly':
+                app.add(Route('/po', self.posonly_ep))
+            elif kind == 'unresolved-same-fn':
+                app.add(('/uz', self.needs_zzz), 0)
             elif kind == 'embedded-2nd':
                 inner = self.Application([('/one', self.eps['F1']), ('/<name>', self.eps['F2'])])
                 app.add(self.SubApplication('/<name>', inner), 0)
@@ -353,6 +363,51 @@ def check_bystander(w, target):
     return bad
 
 
+def check_render_factories(acc):
+    """Applications with render factories of their own: whatever one application's factory has built, loaded or
+    remembered never shows in another application - in every order of construction and of first requests, also when
+    one application is embedded in the other and when one Route object is bound into both."""
+    import itertools
+    from clastic import Application, Route
+    from clastic.render import AshesRenderFactory
+    names = ['page.html', 'other.html']
+
+    def factory(tag):
+        f = AshesRenderFactory()
+        for nm in names:
+            f.register_source(nm, 'template %s of %s: {v}' % (nm, tag))
+        return f
+
+    def ep():
+        return {'v': 'value'}
+    for order in itertools.permutations(['A', 'B', 'C']):
+        for shared_route in (False, True):
+            rt = Route('/p', ep, 'page.html')
+            apps = {}
+            for tag in order:
+                routes = [rt if shared_route else Route('/p', ep, 'page.html'), ('/o', ep, 'other.html')]
+                if tag == 'C' and 'A' in apps:
+                    routes.append(('/sub', apps['A']))           # A embedded in C: A's routes keep A's templates
+                apps[tag] = Application(routes, render_factory=factory(tag))
+            for req_order in itertools.permutations(sorted(apps)):
+                for tag in req_order * 2:
+                    checks = [('/p', 'page.html', tag), ('/o', 'other.html', tag)]
+                    if tag == 'C' and order.index('A') < order.index('C'):
+                        checks.append(('/sub/o', 'other.html', 'A'))
+                    for path, nm, owner in checks:
+                        res = wsgi.call(apps[tag], path, 'GET')
+                        acc.transitions += 1
+                        acc.validated += 1
+                        want = ('template %s of %s: value' % (nm, owner)).encode('ascii')
+                        if res.raised is not None or res.code != 200 or res.body != want:
+                            acc.violation('C11:render-factory-isolation', 'application %s (constructed in order %r, one Route object '
+                                          'shared: %r) answered %s with %s %r, expected %r' % (tag, order, shared_route, path, res.status,
+                                                                                                (res.body or b'')[:60], want),
+                                          {'part': 'render-factories'})
+                            return
+    acc.outcome('render-factories')
+
+
 def enabled_ops(w, max_apps):
     ops = []
     n = len(w.apps)
@@ -427,6 +482,16 @@ def step(acc, history, op):
             acc.violation('C11:failed-op-changed-state:%s' % (op[2] if op[0] == 'fail' else 'constructor'),
                           'failing operation %r (%r) changed the applications: %r -> %r' % (op, exc, before[0], w.digest()), case)
             return None
+        # the same operation once more: it fails again and still changes nothing
+        try:
+            _, exc2 = apply_op(w, op)
+        except Exception as e:
+            exc2 = e
+        acc.transitions += 1
+        if exc2 is None or (w.digest(), w.model_key()) != before:
+            acc.violation('C11:failing-op-accepted-on-retry:%s' % (op[2] if op[0] == 'fail' else 'constructor'),
+                          'operation %r failed with %r, the retry %s' % (op, exc, 'succeeded' if exc2 is None else 'changed the applications'), case)
+            return None
     acc.validated += 1
     for kind, msg in w.check():
         acc.violation('C11:%s:%s' % (kind, op[0] if op[0] != 'fail' else 'after-fail-' + op[2]),
@@ -465,6 +530,8 @@ def shard(tier, i, n, seed):
     depth, max_apps = params(tier)
     states = enumerate_states(depth - 1, max_apps)
     acc.extra['model_states'] = [len(states)]
+    if i == 3 % n:
+        check_render_factories(acc)
     for k, hist in enumerate(states):
         if k % n != i:
             continue
@@ -505,6 +572,9 @@ def finish(tier, merged, results):
 def replay(case):
     common.setup_repo()
     acc = common.Acc()
+    if case.get('part') == 'render-factories':
+        check_render_factories(acc)
+        return (False, acc.violations[0]['desc'][:3000]) if acc.violations else (True, 'ok')
     hist = [tuple(tuple(x) if isinstance(x, list) else x for x in o) for o in case['history']]
     op = tuple(tuple(x) if isinstance(x, list) else x for x in case['op'])
     step(acc, hist, op)
